@@ -1,5 +1,5 @@
 #!/usr/bin/env python3
-"""Apply a seeded patch to /repo, run checks, undo.  usage: seed_run.py <name> [tier] [prop ...]"""
+"""Apply a seeded patch to a scratch worktree of /repo HEAD, run checks against it (MCV_REPO), remove it.  usage: seed_run.py <name> [tier] [prop ...]"""
 import json
 import os
 import subprocess
@@ -11,22 +11,24 @@ tier = sys.argv[2] if len(sys.argv) > 2 else "quick"
 d = f"/verif/seeded/{name}"
 meta = json.load(open(f"{d}/meta.json"))
 props = sys.argv[3:] or [meta["property"]]
-st = subprocess.run("git -C /repo status --porcelain --untracked-files=no", shell=True, capture_output=True, text=True).stdout.strip()
-assert not st, f"/repo not clean: {st}"
-a = subprocess.run(f"git -C /repo apply {d}/patch.diff", shell=True, capture_output=True, text=True)
+# the patch is applied to a scratch worktree of /repo HEAD and the checks are pointed at it (MCV_REPO);
+# /repo itself is never modified, so this is safe while other runs read /repo
+WT = f"/tmp/wt_seedrun_{name}"
+subprocess.run(f"git -C /repo worktree remove --force {WT}", shell=True, capture_output=True)
+a = subprocess.run(f"git -C /repo worktree add -q {WT} HEAD && git -C {WT} apply {d}/patch.diff", shell=True, capture_output=True, text=True)
 assert a.returncode == 0, a.stderr
 out = {}
 try:
     for p in props:
         t0 = time.time()
-        r = subprocess.run(["./check", p, tier], cwd="/verif", capture_output=True, text=True)
+        r = subprocess.run(["./check", p, tier], cwd="/verif", capture_output=True, text=True, env=dict(os.environ, MCV_REPO=WT))
         lines = [l for l in r.stdout.splitlines() if l.startswith(("VIOLATION", "BROKEN", "KNOWN", "  site"))]
         out[p] = {"rc": r.returncode, "lines": lines[:8], "wall": round(time.time() - t0, 1)}
         print(p, tier, "rc", r.returncode, f"{time.time()-t0:.0f}s")
         for l in lines[:8]:
             print("   ", l[:200])
 finally:
-    subprocess.run("git -C /repo checkout -- .", shell=True)
+    subprocess.run(f"git -C /repo worktree remove --force {WT}", shell=True, capture_output=True)
     subprocess.run("rm -f /verif/replays/*.json", shell=True)
     # evidence files were rewritten against a mutated tree: restore the committed ones
     subprocess.run("git -C /verif checkout -- evidence", shell=True)
